@@ -24,7 +24,7 @@ def get_qualified_name(value: Any) -> str:
 
     """
     try:
-        return value.__module__ + "." + value.__class__.__name__
+        return value.__module__ + "." + value.__class__.__qualname__
     except AttributeError as e:
         raise AttributeError(f"Object {value} does not have required attributes: {e}")
 
